@@ -18,6 +18,8 @@
 //! 1–8 identical callers (staggered, some cancelling) or 2–8 callers over 2–4 distinct keys;
 //! (c) thorough only: multi-thread runtime, real time, 64 callers × 4 keys (clauses ii and v-outcome).
 
+mod full;
+mod fullo;
 mod oracle;
 mod scn;
 mod sim;
@@ -33,11 +35,23 @@ fn main() {
     let mut rep = Reporter::new(&ctx);
 
     if let Some(w) = ctx.replay_case() {
-        match Scenario::from_json(&w["case"]) {
-            Some(s) => oracle::judge(&mut rep, &s),
-            None => {
-                eprintln!("replay file has no usable case");
-                std::process::exit(3);
+        // "mode":"full" = a case of the full-stack observation point (full.rs); anything else is a
+        // SimConnProvider scenario
+        if w["case"].get("mode").and_then(|m| m.as_str()) == Some("full") {
+            match full::FScn::from_json(&w["case"]) {
+                Some(s) => fullo::judge(&mut rep, &s),
+                None => {
+                    eprintln!("replay file has no usable full-stack case");
+                    std::process::exit(3);
+                }
+            }
+        } else {
+            match Scenario::from_json(&w["case"]) {
+                Some(s) => oracle::judge(&mut rep, &s),
+                None => {
+                    eprintln!("replay file has no usable case");
+                    std::process::exit(3);
+                }
             }
         }
         rep.replay_finish();
@@ -86,6 +100,16 @@ fn main() {
     for _ in 0..n {
         let s = scn::gen_scenario(&mut rng);
         oracle::judge(&mut rep, &s);
+    }
+
+    // ---- (d) full stack: the real connection layer over scripted sockets (full.rs / fullo.rs)
+    {
+        let mut frng = ctx.rng("full-stack");
+        let n = ctx.budget(48_000, 2_400_000);
+        for _ in 0..n {
+            let s = full::gen_full(&mut frng);
+            fullo::judge(&mut rep, &s);
+        }
     }
 
     // ---- (c) threaded stress, thorough only
